@@ -80,6 +80,24 @@ func genBehaviours(r *rng, wf *AWf, o engineOpts) map[string]Behaviour {
 		}
 		b[s.Src] = bh
 	}
+	// a step another one waits on through `starting.started` fails to start in half of the cases: the waiting step's
+	// prerequisite then never happens
+	for _, s := range wf.Steps {
+		if w, ok := s.Fields["wait_for"]; ok && w.K == "expr" && strings.HasSuffix(w.Src, ".starting.started") {
+			parts := strings.Split(w.Src, ".")
+			if len(parts) >= 3 && r.chance(1, 2) {
+				for _, t := range wf.Steps {
+					if t.ID == parts[2] && t.Kind == "plugin" {
+						bh := b[t.Src]
+						if !bh.DeployFail && bh.Outcome != "hang" {
+							bh.Outcome, bh.StartFail = "success", true
+							b[t.Src] = bh
+						}
+					}
+				}
+			}
+		}
+	}
 	return b
 }
 
